@@ -292,6 +292,9 @@ func (env *SpecEnv) ident(name string) tv {
 				return v
 			}
 			if gv, ok := obj.(*types.Var); ok {
+				if cv, ok := env.ex.constGlobal(gv); ok {
+					return tv{T: cv, Ty: gv.Type()}
+				}
 				// package-level variable: read its cell
 				g := env.ex.prog.globalRef(env.ex, gv)
 				p := &Ptr{Ref: g, Obj: gv.Type()}
@@ -419,6 +422,9 @@ func (env *SpecEnv) eval(e ast.Expr) tv {
 								return v
 							}
 							if gv, ok := obj.(*types.Var); ok {
+								if cv, ok := ex.constGlobal(gv); ok {
+									return tv{T: cv, Ty: gv.Type()}
+								}
 								g := ex.prog.globalRef(ex, gv)
 								pp := &Ptr{Ref: g, Obj: gv.Type()}
 								return tv{T: ex.loadH(env.st, env.heap, pp), Ty: gv.Type()}
@@ -915,6 +921,9 @@ func (env *SpecEnv) call(x *ast.CallExpr) tv {
 			return tv{T: sliceBase(a.T)}
 		}
 		return tv{T: a.T}
+	case "bits": // the bit pattern of a value (floats are carried as their IEEE bits)
+		a := env.needTerm(env.eval(x.Args[0]))
+		return tv{T: a.T}
 	case "tag":
 		a := env.eval(x.Args[0])
 		return tv{T: ifaceTag(a.T)}
@@ -975,6 +984,37 @@ func (env *SpecEnv) specCall(name string, args []ast.Expr) tv {
 			sfail("ghost %s on non-reference sort %s", name, r.So)
 		}
 		return tv{T: sel(ex.comp(env.heap, compGhost(name), so), r)}
+	}
+	if m, ok := ex.cs.Macros[name]; ok {
+		if len(m.Params) != len(args) {
+			sfail("macro %s: expected %d arguments", name, len(m.Params))
+		}
+		n := *env
+		n.names = map[string]tv{}
+		n.locals = nil
+		n.bound = env.bound
+		for i, p := range m.Params {
+			n.names[p] = env.eval(args[i])
+		}
+		if m.Pkg != "" {
+			if pk := ex.prog.pkgByPath(m.Pkg); pk != nil {
+				n.pkg = pk
+			}
+		}
+		// old() inside a macro refers to the caller's old state with the same bindings
+		n.oldNames = nil
+		if env.old != nil {
+			on := map[string]tv{}
+			oe := env.withOld()
+			for i, p := range m.Params {
+				func() {
+					defer func() { recover() }()
+					on[p] = oe.eval(args[i])
+				}()
+			}
+			n.oldNames = on
+		}
+		return n.eval(parseSpec(m.Body))
 	}
 	sf, ok := ex.prog.spec.funcs[name]
 	if !ok {
